@@ -325,6 +325,104 @@ static void calendar_case(int form, int broken, int ext) {
 	vb_free(&sb);
 }
 
+/* ------------------------------------------------------------------ one context, anchors changed between two verifications
+ * The anchor that counts is the one the context is configured with NOW: a publications file downloaded from the former URL, or kept
+ * beyond its cache lifetime, and the former extender no longer bind a signature. */
+static void build_file(vbuf *pf, int with_sigpub) {
+	uint64_t times[2];
+	unsigned char hashes[2][RH_MAX_IMPRINT];
+	size_t hlens[2];
+	int np = 0;
+	times[np] = FX_PE; hlens[np] = ref_fake_imprint(RH_SHA256, 11, hashes[np]); np++;
+	if (with_sigpub) { times[np] = FX_P0; fx_cal_root(FXS.root, FXS.root_len, FX_P0, hashes[np], &hlens[np]); np++; }
+	vb_reset(pf);
+	fx_make_pubfile(pf, np, times, hashes, hlens, 0, NULL, &fx_pub_signer);
+}
+static int verify_now(KSI_CTX *ctx, KSI_Signature *sig, const KSI_Policy *policy, int *code) {
+	KSI_VerificationContext vc;
+	KSI_PolicyVerificationResult *res = NULL;
+	int rc, r = -1;
+	KSI_VerificationContext_init(&vc, ctx);
+	vc.signature = sig;
+	rc = KSI_SignatureVerifier_verify(policy, &vc, &res);
+	vf_count("impl_calls", 1);
+	if (rc == KSI_OK && res != NULL) { r = (int)res->finalResult.resultCode; *code = (int)res->finalResult.errorCode; }
+	KSI_PolicyVerificationResult_free(res);
+	KSI_VerificationContext_clean(&vc);
+	return r;
+}
+static void part_reuse(void) {
+	int how, first_good, pol;
+	/* publications file: how 0 = the publications URL is changed, 1 = same URL, the cache lifetime passes, 2 = same URL, the file is set aside with KSI_CTX_setPublicationsFile(NULL) */
+	for (pol = 0; pol < 2; pol++) for (how = 0; how < 3; how++) for (first_good = 0; first_good < 2; first_good++) {
+		KSI_CTX *ctx;
+		rsig s;
+		vbuf sb, good, bad;
+		KSI_Signature *sig = NULL;
+		const KSI_Policy *policy = pol ? KSI_VERIFICATION_POLICY_GENERAL : KSI_VERIFICATION_POLICY_PUBLICATIONS_FILE_BASED;
+		int r1, r2, c1 = 0, c2 = 0;
+		long before;
+		if (!vf_case_begin("reuse:pubfile:%s:%s:%s-file-first", pol ? "general" : "pubfile-policy", how == 0 ? "url-changed" : how == 1 ? "cache-expired" : "file-set-aside", first_good ? "binding" : "other")) continue;
+		fx_pki();
+		fx_server_install(FXE_NO_REPLY);
+		ctx = fx_ctx(0, 1);
+		fx_make_sig(&s, 2, 0, &fx_auth_cert);
+		vb_init(&sb); vb_init(&good); vb_init(&bad);
+		rs_serialize(&s, &sb);
+		if (KSI_Signature_parseWithPolicy(ctx, sb.p, sb.n, KSI_VERIFICATION_POLICY_EMPTY, NULL, &sig) != KSI_OK) vf_harness_error("fixture signature refused");
+		rs_aggr_root(&s, 0, FXS.root, &FXS.root_len, NULL);
+		build_file(&good, 1); build_file(&bad, 0);
+		vb_reset(&FXS.pubfile); vb_putvb(&FXS.pubfile, first_good ? &good : &bad);
+		r1 = verify_now(ctx, sig, policy, &c1);
+		if (first_good ? r1 != KSI_VER_RES_OK : r1 == KSI_VER_RES_OK) vf_fail(first_good ? "bound-not-ok" : "unbound-ok", "reuse: first verification with the %s file gives result %d (0x%x)", first_good ? "binding" : "other", r1, c1);
+		/* the server now holds the other file */
+		vb_reset(&FXS.pubfile); vb_putvb(&FXS.pubfile, first_good ? &bad : &good);
+		before = FXS.pub_requests;
+		if (how == 0) { if (KSI_CTX_setPublicationUrl(ctx, "http://pub2.fx.test/other-publications.bin") != KSI_OK) vf_harness_error("setPublicationUrl"); }
+		else if (how == 1) sn_now += 8 * 3600 + 5;     /* default cache lifetime: 8 hours */
+		else { if (KSI_CTX_setPublicationsFile(ctx, NULL) != KSI_OK) vf_harness_error("setPublicationsFile(NULL)"); }
+		r2 = verify_now(ctx, sig, policy, &c2);
+		vf_outcome("reuse:pubfile:%s:second-%s", how == 0 ? "url-changed" : how == 1 ? "cache-expired" : "file-set-aside", r2 == KSI_VER_RES_OK ? "OK" : "not-OK");
+		if (FXS.pub_requests == before) vf_fail("stale-publications-file", "reuse: after %s no publications file was fetched for the second verification (result %d)", how == 0 ? "the publications URL was changed" : how == 1 ? "the cache lifetime had passed" : "the cached file was set aside", r2);
+		if (first_good && r2 == KSI_VER_RES_OK) vf_fail("unbound-ok", "reuse: the context's publications file no longer lists the signature's publication (%s) but the verdict is still OK", how == 0 ? "URL changed" : how == 1 ? "cache lifetime passed" : "file set aside");
+		if (!first_good && r2 != KSI_VER_RES_OK) vf_fail("bound-not-ok", "reuse: the context's publications file now lists the signature's publication (%s) but the verdict is %d (0x%x)", how == 0 ? "URL changed" : how == 1 ? "cache lifetime passed" : "file set aside", r2, c2);
+		KSI_Signature_free(sig);
+		KSI_CTX_free(ctx);
+		vb_free(&sb); vb_free(&good); vb_free(&bad);
+		vf_case_end(1);
+	}
+	/* extender: the context is pointed at another extender (other URL, other credentials) whose calendar does not contain the signature */
+	for (first_good = 0; first_good < 2; first_good++) {
+		KSI_CTX *ctx;
+		rsig s;
+		vbuf sb;
+		KSI_Signature *sig = NULL;
+		int r1, r2, c1 = 0, c2 = 0;
+		if (!vf_case_begin("reuse:extender:%s-extender-first", first_good ? "honest" : "other-calendar")) continue;
+		fx_pki();
+		fx_server_install(first_good ? FXE_CORRECT : FXE_OTHER_ROOT);
+		ctx = fx_ctx(1, 0);
+		fx_make_sig(&s, 2, 0, &fx_auth_cert);
+		vb_init(&sb);
+		rs_serialize(&s, &sb);
+		if (KSI_Signature_parseWithPolicy(ctx, sb.p, sb.n, KSI_VERIFICATION_POLICY_EMPTY, NULL, &sig) != KSI_OK) vf_harness_error("fixture signature refused");
+		rs_aggr_root(&s, 0, FXS.root, &FXS.root_len, NULL);
+		r1 = verify_now(ctx, sig, KSI_VERIFICATION_POLICY_CALENDAR_BASED, &c1);
+		if (first_good ? r1 != KSI_VER_RES_OK : r1 == KSI_VER_RES_OK) vf_fail(first_good ? "bound-not-ok" : "unbound-ok", "reuse: first calendar-based verification gives result %d (0x%x)", r1, c1);
+		FXS.ext_behaviour = first_good ? FXE_OTHER_ROOT : FXE_CORRECT;
+		if (KSI_CTX_setExtender(ctx, "ksi+tcp://ext2.fx.test:3331", FX_LOGIN, FX_KEY) != KSI_OK) vf_harness_error("setExtender");
+		r2 = verify_now(ctx, sig, KSI_VERIFICATION_POLICY_CALENDAR_BASED, &c2);
+		vf_outcome("reuse:extender:second-%s", r2 == KSI_VER_RES_OK ? "OK" : "not-OK");
+		if (strcmp(sn_last_host, "ext2.fx.test") != 0) vf_fail("stale-extender", "reuse: after KSI_CTX_setExtender the second verification talked to '%s'", sn_last_host);
+		if (first_good && r2 == KSI_VER_RES_OK) vf_fail("unbound-ok", "reuse: the extender now configured does not reproduce the signature's publication but the verdict is still OK");
+		if (!first_good && r2 != KSI_VER_RES_OK) vf_fail("bound-not-ok", "reuse: the extender now configured reproduces the signature's publication but the verdict is %d (0x%x)", r2, c2);
+		KSI_Signature_free(sig);
+		KSI_CTX_free(ctx);
+		vb_free(&sb);
+		vf_case_end(1);
+	}
+}
+
 static void run(void) {
 	int form, broken, u, allowed, ext, f, src, k, pol;
 	/* user publication under its own policy and under the general policy */
@@ -384,6 +482,7 @@ static void run(void) {
 		calendar_case(form, broken, ext);
 		vf_case_end(1);
 	}
+	part_reuse();
 }
 
 int main(int argc, char **argv) {
